@@ -244,6 +244,15 @@ func buildOps(baseName, stack string) []op {
 				ops = append(ops, op{Thru: "sub", Slot: slot, Store: "file", C: c})
 			}
 		}
+
+		// Depth of derivation (family.go): the pooled view is replaced by a view
+		// derived from IT - Sub of a Sub, and of that one again - so that every
+		// "sub." letter and every open through the pool also reaches the
+		// grandchildren of the FailFS, not only its children.
+		ops = append(ops,
+			op{Thru: "sub", Store: "sub", C: fsx.Call{Op: "Sub", A: "/"}},
+			op{Thru: "sub", Store: "sub", C: fsx.Call{Op: "Sub", A: "/d"}},
+		)
 	}
 
 	if stack == stRoMid {
